@@ -32,9 +32,11 @@ const TOL_XY: f64 = 1.0e-4;
 const TOL_GAMMA_REL: f64 = 1.0e-4;
 /// |x' - x| <= TOL_RT * max(1, |x|), demanded by the property on the nominal range.
 const TOL_RT: f64 = 1.0e-4;
-/// Largest share of TOL_XY that the ICC *format* (correctly rounded s15Fixed16
-/// numbers, worst case) may use up; descriptions beyond that are outside the domain.
-const MAX_FORMAT_RESOLUTION: f64 = 5.0e-5;
+/// Coarsest ICC *format* resolution (worst-case xy shift from correctly rounded
+/// s15Fixed16 numbers) still inside the domain: the nine named white point x
+/// primaries combinations reach 3.73e-5 (DCI white, sRGB primaries); descriptions
+/// the format carries more coarsely than that are outside the domain.
+const MAX_FORMAT_RESOLUTION: f64 = 4.0e-5;
 /// Pure-gamma exponents for which the curve sub-check asserts the flat TOL_RT.
 const CURVE_GAMMA_MAX_EXPONENT: f64 = 4.0;
 /// Largest step against the input order that is attributed to the documented
@@ -53,8 +55,8 @@ const G_MIN: u32 = 1221; // ceil(1e7 / 8192)
 const G_ONE: u32 = 10_000_000;
 
 /// A custom white point must have Bradford cone responses within this factor of D50's.
-const WHITE_CONE_RATIO_MAX: f64 = 8.0;
-const DISCARD_WHITE: &str = "custom white point outside the range chromatic adaptation is meaningful for (a Bradford cone response beyond 8x / below 1/8 of D50's)";
+const WHITE_CONE_RATIO_MAX: f64 = 4.0;
+const DISCARD_WHITE: &str = "custom white point outside the range chromatic adaptation is meaningful for (a Bradford cone response beyond 4x / below 1/4 of D50's)";
 const DISCARD_TRIANGLE: &str = "no triangle of area 1e-3 fits around the white point";
 
 static OBSERVED: Mutex<BTreeMap<String, f64>> = Mutex::new(BTreeMap::new());
@@ -210,7 +212,7 @@ fn gen_wp(src: &mut Src) -> WhitePoint {
         1 => WhitePoint::E,
         2 => WhitePoint::Dci,
         _ => {
-            let (x, y) = match src.weighted(&[2, 2, 3, 2]) {
+            let (x, y) = match src.weighted(&[2, 2, 4, 1]) {
                 0 => NAMED_WP_UNITS[src.below(4)].0,
                 1 => {
                     // around a named point, straddling the parser's snapping distance
@@ -354,7 +356,7 @@ fn gen_encoding(src: &mut Src, tf: Option<TransferFunction>) -> Result<EnumColou
     let grey = src.weighted(&[3, 1]) == 1;
     let white_point = gen_wp(src);
     // a white point is something chromatic adaptation is defined for: Bradford cone
-    // responses within a factor 8 of D50's (covers black bodies from 2000 K to infinity, and more)
+    // responses within a factor 4 of D50's (every CIE standard illuminant, every black body above ~2400 K)
     if cm::bradford_cone_ratio(wp_xy(&white_point)).iter().any(|r| !(*r >= 1.0 / WHITE_CONE_RATIO_MAX && *r <= WHITE_CONE_RATIO_MAX)) {
         return Err(DISCARD_WHITE);
     }
@@ -437,7 +439,7 @@ fn run_icc(src: &mut Src, o: &mut Outcome, describe: bool, fixed: Option<EnumCol
     match res {
         Some(r) if r.white_point.max(r.primaries) <= MAX_FORMAT_RESOLUTION => {}
         _ => {
-            o.verdict = Verdict::Discard("ICC s15Fixed16 matrices cannot carry this white point / primaries to 5e-5 (format resolution)".into());
+            o.verdict = Verdict::Discard("ICC s15Fixed16 matrices cannot carry this white point / primaries to 4e-5 (format resolution; the named spaces need 3.73e-5)".into());
             return;
         }
     }
@@ -963,7 +965,10 @@ fn run_curve(src: &mut Src, o: &mut Outcome, describe: bool, fixed: Option<(Enum
         // keep the linear value within the nominal range of both curves
         let top = if is_hlg { 1.0 } else { cm::pq_encode((it as f64 / 10000.0).min(1.0)) };
         let scaled: Vec<f32> = samples.iter().map(|v| (*v as f64 * top) as f32).collect();
-        let (input, _) = spread(&scaled, rot, same_channels);
+        // along r=g=b: the OOTF couples the channels through luminance, and for saturated
+        // pixels of negligible luminance the inverse OOTF magnifies the PQ approximation's
+        // near-black error without bound (conditioning, not a curve defect)
+        let (input, _) = spread(&scaled, rot, true);
         let mut m = input.clone();
         if !exec(o, &a, &mut m, "to-other-hdr") {
             obs.flush();
@@ -1180,7 +1185,7 @@ impl Check for C19 {
         format!(
             "choice sequence -> sub-check (weights 5:4:1). \
 (a) icc: EnumColourEncoding{{Rgb|Grey; white point D65/E/DCI/custom; primaries sRGB/BT.2100/P3/custom; tf gamma (inverted field {G_MIN}..=1e7, non-inverted 1e7..=u32::MAX)/BT.709/linear/sRGB/PQ/DCI/HLG; 4 intents}} naming a real colour space by construction (custom white x,y>0, x+y<1 with Bradford cone responses within {WHITE_CONE_RATIO_MAX}x of D50's; primaries inside x,y>=0, x+y<=1, |area|>=1e-3, white point strictly inside their triangle) -> colour_encoding_to_icc -> ColorEncodingWithProfile::with_icc must be Ok and an enum encoding with the same colour space and intent, white point and primaries within {TOL_XY:e} in xy of the described values (named values per the standards; named<->custom accepted), tf equal (pure powers incl. linear and DCI compared by decoding exponent within {TOL_GAMMA_REL:e} relative). \
-(b) curve: ColorTransform::new(linear->tf) and (tf->linear) with NullCms on identical primaries/white point/intent, run on three planar buffers like the renderer (ascending / rotated / descending copies, or r=g=b); sorted samples (dense grids, random, curve breakpoints and their neighbours) in [-0.5,1.5] (sRGB/BT.709/gamma/DCI/linear) or [0,1] (PQ/HLG, gamma exponent > {CURVE_GAMMA_MAX_EXPONENT}): outputs finite; each direction non-decreasing along strictly ordered inputs up to {MONO_SLACK:e}*max(1,|out|) (plus the analytic BT.709 published-constant gap for its decoder and {PQ_DECODE_STEP_BACK:e}*10000/intensity_target for the PQ decoder); |x'-x| <= tol*max(1,|x|) on [0,1] and (1,1.5] (negative inputs only for sRGB/BT.709/linear; pure gamma clamps them to 0 by design) with tol = {TOL_RT:e} (BT.709, gamma <= {CURVE_GAMMA_MAX_EXPONENT}, DCI, linear), {TOL_RT:e}*max(1,255/intensity_target) (PQ, HLG), {TOL_RT_SRGB:e} (sRGB) for intensity targets <= 255; PQ/HLG at 1000/4000/10000: encode direction finite+monotone; all targets, RGB: PQ<->HLG there-and-back within 2*tol measured in display-linear light with the f64 reference decoder. \
+(b) curve: ColorTransform::new(linear->tf) and (tf->linear) with NullCms on identical primaries/white point/intent, run on three planar buffers like the renderer (ascending / rotated / descending copies, or r=g=b); sorted samples (dense grids, random, curve breakpoints and their neighbours) in [-0.5,1.5] (sRGB/BT.709/gamma/DCI/linear) or [0,1] (PQ/HLG, gamma exponent > {CURVE_GAMMA_MAX_EXPONENT}): outputs finite; each direction non-decreasing along strictly ordered inputs up to {MONO_SLACK:e}*max(1,|out|) (plus the analytic BT.709 published-constant gap for its decoder and {PQ_DECODE_STEP_BACK:e}*10000/intensity_target for the PQ decoder); |x'-x| <= tol*max(1,|x|) on [0,1] and (1,1.5] (negative inputs only for sRGB/BT.709/linear; pure gamma clamps them to 0 by design) with tol = {TOL_RT:e} (BT.709, gamma <= {CURVE_GAMMA_MAX_EXPONENT}, DCI, linear), {TOL_RT:e}*max(1,255/intensity_target) (PQ, HLG), {TOL_RT_SRGB:e} (sRGB) for intensity targets <= 255; PQ/HLG at 1000/4000/10000: encode direction finite+monotone; all targets, RGB, along r=g=b: PQ<->HLG there-and-back within 2*tol measured in display-linear light with the f64 reference decoder. \
 (c) identity: ColorTransform::new(e,e) (enum, or both sides parsed from the synthesised ICC) is_noop, channel counts unchanged, buffers of arbitrary bit patterns bit-identical after run. \
 Non-trivial: (a),(c) custom chromaticity or gamma present; (b) some |x|>1e-3. Distinct by FNV of the canonical case text."
         )
@@ -1188,8 +1193,8 @@ Non-trivial: (a),(c) custom chromaticity or gamma present; (b) some |x|>1e-3. Di
     fn assumptions(&self) -> Vec<String> {
         vec![
             format!("gamma field restricted to {G_MIN}..=10000000 of 1..=16777215 (decoding exponent 1..8192): the 1220 values below (exponent > 8192: rejected by libjxl; below 306 not representable as an ICC s15Fixed16 gamma) and the 6777215 values above 1e7 (encoding exponent > 1: TransferFunction::Gamma documents g <= 10_000_000 when inverted, libjxl rejects them) are not generated, i.e. 40.4% of the raw field range"),
-            format!("custom white points whose Bradford cone responses are not within {WHITE_CONE_RATIO_MAX}x of D50's are discarded and counted (ICC v4 requires a linear-Bradford chad to D50; it degenerates where a cone response approaches 0; the kept range contains every black body from 2000 K upwards)"),
-            format!("colour descriptions whose white point / primaries the ICC format itself cannot carry to {MAX_FORMAT_RESOLUTION:e} (sum over the s15Fixed16 chad/colorant/wtpt numbers of the xy shift caused by half a unit each, computed by the independent f64 model jxlref::colour_model::icc_matrix_resolution) are discarded and counted: the property's 1e-4 cannot be demanded of any implementation there"),
+            format!("custom white points whose Bradford cone responses are not within {WHITE_CONE_RATIO_MAX}x of D50's are discarded and counted (ICC v4 requires a linear-Bradford chad to D50; it degenerates where a cone response approaches 0; the kept range contains every CIE standard illuminant and every black body above about 2400 K)"),
+            format!("colour descriptions whose white point / primaries the ICC format itself cannot carry to {MAX_FORMAT_RESOLUTION:e} (sum over the s15Fixed16 chad/colorant/wtpt numbers of the xy shift caused by half a unit each, computed by the independent f64 model jxlref::colour_model::icc_matrix_resolution) are discarded and counted: the nine named white point x primaries combinations need up to 3.73e-5, so the domain is every description the format carries at least about as finely as the named ones"),
             "XYB and Unknown colour spaces and the Unknown transfer function are outside the property's domain (todo!/panic! arms in icc/synthesize.rs are not exercised)".into(),
             "transfer-curve inversion is observable through the public API only for intensity_target <= 255: above that ColorTransform inserts Rec.2408 tone mapping towards any non-HDR target (linear included) by design; PQ/HLG at higher targets are covered in the encode direction and by PQ<->HLG there-and-back; intensity targets 295..305 are not generated (the HLG inverse OOTF is documented to be skipped there while the forward one is not)".into(),
             format!("tolerances: 1e-4 is the property's; the sRGB pair gets {TOL_RT_SRGB:e} because linear_to_srgb is the 8-bit-grade fast approximation ported from libjxl (1.657e-4 off the IEC formula at 1.0; observed worst round trip 3.771e-4 at x = 1.0 over a 1e6-point scan); PQ/HLG scale with 255/intensity_target below 255 because the PQ EOTF approximation is off by a fixed 6.24e-7 of 10000 cd/m2 near black (observed 6.24e-5 at 100, 3.08e-5 at 203, 2.45e-5 at 255); absolute accuracy against the reference curves is NOT asserted (the property only asks for inversion and monotonicity)"),
